@@ -99,6 +99,78 @@ def encrypted_extents(chk, thorough):
     print("  %d encrypted-extent cases" % len(runs), flush=True)
 
 
+def api_followed(chk, thorough):
+    """(x, s) at the API: value elements whose CONTENTS are themselves BER (Opaque wrapping a TLV, after RFC 2578 7.1.9; the nested
+    families of the malformed-datagram corpus) and all boundary values, sent in a varbind alone and followed - inside the varbind - by
+    other octets; the Python value returned by get() may not depend on them (TraceCodec ApiExtGood)"""
+    import socket
+    from vlib import scripts, rawdrv, agent as ag, refcodec as rc, malform
+    from vlib.apidrv import proj
+    std = scripts.std_cfgs()
+    cfg = std["v2c"]
+    xs = []
+    for tagb in ([0x9F, 0x78], [0x9F, 0x79], [0x9F, 0x7A], [0x9F, 0x7B], [0x9F, 0x76], [0x44], [0x04], [0x02], [0x30]):
+        for true_len in (0, 1, 3, 4, 7, 8):
+            payload = bytes((0x40 + 9 * j) % 256 for j in range(true_len))
+            for lenb in ([true_len], [true_len + 1], [true_len + 4], [8], [4], [0x81, true_len], []):
+                content = bytes(tagb) + bytes(lenb) + payload
+                for vtag in (0x44, 0x04):
+                    xs.append(rc.tlv(vtag, content))
+    xs += [bytes([t, 0]) for t in (0x02, 0x41, 0x42, 0x43, 0x46, 0x47, 0x40, 0x04, 0x06, 0x09)] + [bytes([0x40, 2, 10, 0]), bytes([0x09, 1, 0x40]), bytes([0x02, 1, 0x80])]
+    if not thorough:
+        xs = [x for i, x in enumerate(xs) if i % 2 == 0 or x[:1] == b"\x44"]
+    suffixes = [bytes([0x54, 0x44, 0x2D, 0x18]), bytes(8), bytes([0xFF] * 9), bytes([0x05, 0x00])]
+    name = rc.tlv(0x06, rc.oid_content([1, 3, 6, 1, 2, 1, 1, 1, 0]))
+
+    def ask(s, x, suffix):
+        w, exc = s.send("get", ["1.3.6.1.2.1.1.1.0"])
+        if w is None:
+            return dict(k="exc", v=[], e="send")
+        req = ag.Request(cfg, w)
+        vb = rc.tlv(0x30, name + x + suffix)
+        pdu = rc.tlv(0xA2, rc.enc_int(req.reqid) + rc.enc_int(0) + rc.enc_int(0) + rc.tlv(0x30, vb))
+        s.inject(rc.enc_community_msg("v2c", cfg.community.encode(), pdu))
+        res, exc = s.recv("get")
+        if exc:
+            return dict(k="exc", v=[], e=exc if isinstance(exc, str) else str(exc))
+        return dict(k="value", v=res, e="")
+
+    class NullRec:
+        n = 0
+
+        def emit(self, e):
+            pass
+    recs, items = [], []
+    s = rawdrv.RawSession(NullRec(), cfg)
+    for xi, x in enumerate(xs):
+        alone = ask(s, x, b"")
+        for suffix in (suffixes if thorough else [suffixes[xi % 4], suffixes[(xi + 1) % 4]]):
+            followed = ask(s, x, suffix)
+            recs.append(dict(x=list(x), suffix=list(suffix), alone=alone, followed=followed))
+            items.append((x, suffix))
+            chk.case(("api-followed", x.hex(), suffix.hex()), nontrivial=True)
+    s.close()
+    rec = trace.Recorder("c16apiext")
+    runs = []
+    for i in range(0, len(recs), 400):
+        a = rec.n
+        rec.emit(dict(ev="ApiExtBatch", recs=recs[i:i + 400]))
+        runs.append((a, rec.n, i))
+    rec.close()
+    v = trace.validate_parallel("TraceCodec.tla", "TraceCodec.cfg", rec.events, [(a, b) for a, b, _ in runs], k=4, name="c16apiext")
+    for i, r in enumerate(v["results"]):
+        chk.add_tlc(r, "TraceCodec(c16 api followed)#%d" % i)
+    bad = [r_ for r_ in recs if r_["alone"]["k"] == "value" and r_["followed"]["k"] == "value" and r_["alone"]["v"] != r_["followed"]["v"]]
+    nbad_spec = sum(p["badrecs"]["n"] for r in v["results"] for p in r.printed if isinstance(p, dict) and "badrecs" in p)
+    if nbad_spec != len(bad):
+        raise ToolError("ApiExtBatch: the specification rejected %d records, the driver's own comparison %d" % (nbad_spec, len(bad)))
+    for r_ in bad[:20]:
+        chk.violation(dict(kind="api-followed", tag=r_["x"][0]), "value element %s in a varbind: get() returns %s alone and %s when followed by %s" %
+                      (bytes(r_["x"]).hex(), json.dumps(r_["alone"]["v"])[:80], json.dumps(r_["followed"]["v"])[:80], bytes(r_["suffix"]).hex()),
+                      dict(kind="apiext", x=r_["x"], suffix=r_["suffix"]))
+    print("  %d (x, suffix) pairs through get()" % len(recs), flush=True)
+
+
 def big_trailing_case(rec, cfg, total, junk):
     from vlib import rawdrv, agent as ag
     from checks import c09
@@ -245,6 +317,7 @@ def run(tier):
             chk.violation(dict(kind=evname, more=True), "%d more failing records in batch" % (info["n"] - len(info["first"])), dict(kind=evname))
     encrypted_extents(chk, thorough)
     big_trailing(chk, thorough)
+    api_followed(chk, thorough)
     chk.sample(dict(kind="ext-record", rec={k: (x if k != "b" else x[:24]) for k, x in rec.events[0]["recs"][9].items()}))
     chk.sample(dict(kind="message-mutant", mutant={k: (x if k != "b" else x[:40]) for k, x in muts[1234].items()}))
     return chk.finish()
@@ -253,6 +326,16 @@ def run(tier):
 def replay(path):
     d = json.load(open(path))
     r = d["replay"]
+    if r.get("kind") == "apiext":
+        chk = Check("C16", "quick")
+        chk.states = chk.transitions = 1
+        before = len(getattr(chk, "violations", []))
+        api_followed(chk, False)
+        if len(getattr(chk, "violations", [])) > before:
+            print("VIOLATION property=C16 replay=%s" % path)
+            return 1
+        print("replay: accepted")
+        return 0
     if r.get("kind") == "big":
         from vlib import scripts
         info = r["info"]
